@@ -35,7 +35,7 @@ pub fn profile_hazard(r: &mut Prng) -> GenCfg {
 /// A loop body that ends by setting its own counter to a value at or beyond the bound (incl.
 /// i64::MAX): which rows follow is not defined by C01, but C10 still applies - no panic, and the
 /// loop must come to an end. Run for the no-panic oracle only.
-fn counter_rebind_variant(case: &mut Case, r: &mut Prng) -> bool {
+pub fn counter_rebind_variant(case: &mut Case, r: &mut Prng) -> bool {
     fn first_loop(items: &mut [Item]) -> Option<(&mut String, &mut Vec<Item>)> {
         for it in items.iter_mut() {
             match it {
@@ -51,7 +51,9 @@ fn counter_rebind_variant(case: &mut Case, r: &mut Prng) -> bool {
         None
     }
     let Some((v, inner)) = first_loop(&mut case.program.items) else { return false };
-    let val = *r.pick(&[i64::MAX, i64::MAX - 1, 1 << 40, 5]);
+    // (never a small value: below a bound it would make the loop endless - the program's own
+    // doing - and the run would only burn its CPU budget)
+    let val = *r.pick(&[i64::MAX, i64::MAX, i64::MAX - 1, 1 << 40]);
     inner.push(Item::Let(v.clone(), Expr::Num(val, Radix::Dec)));
     true
 }
@@ -69,7 +71,7 @@ pub fn c10(case_seed: u64, acc: &mut Acc) {
         let real = run_text(&pr.text, &case.signals, &case.script, &RunOpts { max_steps: REAL_STEP_CAP, probe_after_end: 0, stop_at_error: true, seed: Some(case.rng_seed), continue_on: None });
         count_events(acc, &real);
         acc.tag("loop_counter_rebound_at_or_beyond_its_bound");
-        if let Some(f) = first_some(vec![no_panic(&real), accepted(&real)]) {
+        if let Some(f) = first_some(vec![no_panic(&real), accepted(&real), vars_within_textual_scope(&case.program, &pr, &real, acc)]) {
             acc.violation(case_seed, "counter-rebind", f, case_json(&case, &pr));
             return;
         }
@@ -201,7 +203,7 @@ pub fn c10_exhaustive(acc: &mut Acc) -> Value {
 pub const META_C17: Meta = Meta {
     id: "C17",
     level: "exploration",
-    rule: "Cases from profile `random`: random() in row entries, let, loop/repeat bounds, while conditions, ite conditions and both arms, nested random(random(k)+2); bounds from {2,3,10,2^31,2^32+1,2^62, variable/device derived >= 2}; resetRandom at top level, inside loops, twice in a row, before any draw; seeds 0, 1, u64::MAX, 2^32-multiples and PRNG values pinned through the verif-hooks seed override. The hook logs every generator call made by random(n) (bound, value), every resetRandom and every context creation. Oracle: (a) each logged draw with bound >= 2 has 0 <= value < bound; (b) accounting by replay - the reference interpreter runs the same program with random(e) defined as `pop the next log entry, its bound must equal my value of e`, the log must be consumed exactly (no draw missing, none left over, none for an unselected ite arm, bounds of loops drawn once), and the rows, device vectors and vars() it then prescribes must equal the observed ones (as if the drawn values were literals); (c) Reset markers coincide with executed resetRandom statements and any two segments (start of run / after a reset) agree in value on the longest common prefix of their bound sequences; (d) a second run with the same seed produces the identical log, and the context seed logged equals the pinned one. Non-trivial = >= 3 draws and (a resetRandom followed by >= 2 draws, or a draw inside a loop bound / while condition / ite).",
+    rule: "Cases from profile `random`: random() in row entries, let, loop/repeat bounds, while conditions, ite conditions and both arms, nested random(random(k)+2); bounds from {2,3,10,2^31,2^32+1,2^62, variable/device derived >= 2}; resetRandom at top level, inside loops, twice in a row, before any draw; seeds 0, 1, u64::MAX, 2^32-multiples and PRNG values pinned through the verif-hooks seed override. The hook logs every generator call made by random(n) (bound, value), every resetRandom and every context creation. Oracle: (a) each logged draw with bound >= 2 has 0 <= value < bound; (b) accounting by replay - the reference interpreter runs the same program with random(e) defined as `pop the next log entry, its bound must equal my value of e`, the log must be consumed exactly (no draw missing, none left over, none for an unselected ite arm, bounds of loops drawn once), and the rows, device vectors and vars() it then prescribes must equal the observed ones (as if the drawn values were literals); (c) Reset markers coincide with executed resetRandom statements and any two segments (start of run / after a reset) agree in value on the longest common prefix of their bound sequences; (d) a second run with the same seed produces the identical log, and the context seed logged equals the pinned one; (e) declare expressions may draw too, and a share of the cases is run again with the driver answering one checked row in another order - the row is an error item and the draw log must still be consumed exactly by the evaluations the program prescribes. Non-trivial = >= 3 draws and (a resetRandom followed by >= 2 draws, or a draw inside a loop bound / while condition / ite).",
     assumptions: &[
         "hook LoggedContext forwards the crate's own range expression and generator call unchanged (it only observes)",
         "`one draw` is read as one generator call (gen_range) per evaluation of random(n)",
@@ -217,7 +219,7 @@ pub fn profile_random() -> GenCfg {
     c.w_reset = 9;
     c.ite = 130;
     c.widths = 3;
-    c.n_declares = (0, 1);
+    c.n_declares = (0, 2);
     c.max_depth = 3;
     c.w_in = [35, 55, 3, 3, 4];
     c.w_exp = [25, 55, 15, 5];
@@ -328,6 +330,38 @@ pub fn c17(case_seed: u64, acc: &mut Acc) {
         if let DrawRec::Draw { bound, value } = d {
             if *bound <= 8 && *bound >= 2 {
                 acc.tag(&format!("value_seen:random({bound})={value}"));
+            }
+        }
+    }
+    let virtual_draws = case.program.declares().iter().any(|(_, e)| e.contains(&|x| matches!(x, Expr::Random(_))));
+    acc.tag_n("virtual_signal_draws", virtual_draws as u64);
+    // The same run with the driver answering ONE checked row in another order (same signals):
+    // that row is an error item, and nothing of it may have been evaluated behind the caller's
+    // back - every logged draw still belongs to an evaluation the program prescribes. (Signal
+    // lists that carry a virtual signal of their own are left out: where such a signal sits
+    // before the displaced output it is legitimately evaluated first.)
+    let checked: Vec<usize> = ran.real.calls.iter().enumerate().skip(1).filter(|(_, c)| c.reads && c.answer.is_some()).map(|(i, _)| i).collect();
+    if case.script.layout.len() >= 2
+        && case.script.faults.is_empty()
+        && !checked.is_empty()
+        && !case.signals.iter().any(|s| matches!(s.kind, SigKind::Virtual(_)))
+        && r.chance(if virtual_draws { 600 } else { 100 }, 1000)
+    {
+        let mut c2 = case.clone();
+        let at = *r.pick(&checked);
+        let a = r.below(c2.script.layout.len());
+        let b = (a + 1 + r.below(c2.script.layout.len() - 1)) % c2.script.layout.len();
+        c2.script.faults.push((at, Fault::Swap(a, b)));
+        if let Some(ran2) = standard_run(&c2, acc, None) {
+            acc.tag("reordered_answer_injected");
+            if let Some(f) = first_some(vec![
+                no_panic(&ran2.real),
+                accepted(&ran2.real),
+                draw_accounting(&ran2),
+                diff_items(&ran2.pr, &ran2.rf, &ran2.real, Aspects::all()),
+            ]) {
+                acc.violation(case_seed, "reordered-answer", f, case_json(&c2, &ran2.pr));
+                return;
             }
         }
     }
